@@ -43,7 +43,9 @@ def base(draw, tier):
              factor=draw(st.sampled_from(FACTORS)), model=draw(st.sampled_from(["springs", "dense"])),
              nscale=draw(st.sampled_from([1e-3, 1.0, 1.0, 1e3])), naxis=draw(st.sampled_from([-1, -1, -1, 0, 1, 2])),
              blayout=draw(st.sampled_from(["array", "array", "list", "fortran", "transposed", "strided", "readonly"])),
-             elayout=draw(st.sampled_from(["array", "array", "list", "fortran", "transposed", "readonly"])))
+             elayout=draw(st.sampled_from(["array", "array", "list", "fortran", "transposed", "readonly"])),
+             # symmetry handling switched off: the tensors are used exactly as given, also when they do not have the crystal's symmetry
+             nosym=draw(st.sampled_from([False, False, False, True])))
     return b
 
 
@@ -54,9 +56,10 @@ def _setup(spec, zero_born=False):
     if c is None:
         return None, Out(nontrivial=False, classes=["discarded_overlap"])
     S = np.array(spec["smat"])
+    kws = {"is_symmetry": False} if spec.get("nosym") else {}
     try:
-        ph = Phonopy(c["cell"], supercell_matrix=S, primitive_matrix=_pmat(spec["pmat"], c), log_level=0)
-        ph0 = Phonopy(c["cell"], supercell_matrix=S, primitive_matrix=_pmat(spec["pmat"], c), log_level=0)
+        ph = Phonopy(c["cell"], supercell_matrix=S, primitive_matrix=_pmat(spec["pmat"], c), log_level=0, **kws)
+        ph0 = Phonopy(c["cell"], supercell_matrix=S, primitive_matrix=_pmat(spec["pmat"], c), log_level=0, **kws)
     except Exception as e:
         return None, Out(nontrivial=False, rejected=True, classes=["ctor_rejected:" + type(e).__name__])
     rng = rng_from(spec["key"])
@@ -71,6 +74,11 @@ def _setup(spec, zero_born=False):
         Z, eps = sym_nac(ph.primitive, rng)
     except ValueError:
         return None, Out(nontrivial=False, classes=["skipped"])
+    if spec.get("nosym") and len(Z) >= 2:
+        dZ = rng.normal(size=Z.shape) * 0.08 * max(float(np.abs(Z).max()), 1e-3)
+        Z = Z + dZ - dZ.mean(axis=0, keepdims=True)  # still neutral, no longer invariant
+        de = rng.normal(size=(3, 3))
+        eps = eps + 0.05 * float(np.linalg.eigvalsh(eps).min()) * (de + de.T) / 2
     if zero_born:
         Z = Z * 0.0
     ph.nac_params = {"born": present(Z, spec.get("blayout", "array")), "dielectric": present(eps, spec.get("elayout", "array")),
@@ -162,7 +170,8 @@ def run_gamma(spec):
     aniso = np.abs(eps - np.eye(3) * np.trace(eps) / 3).max() > 1e-6 or np.abs(Z - np.eye(3)[None] * np.trace(Z, axis1=1, axis2=2)[:, None, None] / 3).max() > 1e-6
     return Out(ok=True, nontrivial=bool(aniso) and spec["naxis"] < 0 and np.abs(ref).max() > 1e-12,
                classes=[spec["method"], "compact" if spec["compact"] else "full", "nscale:%g" % spec["nscale"], spec["model"],
-                        "born:" + spec.get("blayout", "array"), "eps:" + spec.get("elayout", "array")],
+                        "born:" + spec.get("blayout", "array"), "eps:" + spec.get("elayout", "array"),
+                        "nosym_tensors_as_given" if spec.get("nosym") else "sym"],
                info={"err": max(e1, e2, e3, e4, e5)})
 
 
